@@ -87,6 +87,12 @@ class CHECK(Check):
                 rng.shuffle(fs)
             else:
                 fs = fl.gen_layout(rng)
+            if len(fs) > 1 and rng.random() < 0.3:
+                # overlapping fields (partial overlap, nesting, same start): a later field overwrites its own span only, the
+                # line is as long as the furthest end, every other field stays on its columns
+                i = rng.randrange(len(fs))
+                j = rng.choice([k for k in range(len(fs)) if k != i])
+                fs[i] = dict(fs[i], start=max(0, fs[j]["start"] + rng.choice([0, 0, 1, -1, fs[j]["size"] - 1])))
             vals = []
             for fd in fs:
                 v = fl.gen_value(rng, fd)
@@ -217,8 +223,14 @@ class CHECK(Check):
                 return "text line length %d != furthest field end %d" % (len(body), end)
             blank = " "
         covered = set()
-        for fd, v in zip(fs, case["values"]):
+        owner = {}
+        for i, fd in enumerate(fs):
+            for col in range(fd["start"], fd["start"] + fd["size"]):
+                owner[col] = i      # fields are written in declaration order: the last one covering a column owns it
+        for i, (fd, v) in enumerate(zip(fs, case["values"])):
             covered.update(range(fd["start"], fd["start"] + fd["size"]))
+            if any(owner[col] != i for col in range(fd["start"], fd["start"] + fd["size"])):
+                continue            # partly overwritten by a later, overlapping field: its visible part is compared with the model
             if not case["binary"]:
                 w = self.justify(body[fd["start"]: fd["start"] + fd["size"]], fd, v)
                 if w:
